@@ -88,20 +88,31 @@ static const char* chars_of(const std::string& s) { return reinterpret_cast<cons
 // The parse functions run their conversion code once per table entry (the loop over the parameters is unrolled by the
 // solver), so the conversion models must be O(1): everything they need to know about the VALUE TOKEN is computed once by the
 // reference (below) from the harness' own copy of the text; a model only checks that the pointer it is given IS the value
-// token inside the buffer the real code works on (g_value_ptr). If it is not (assertion 12 after the call), the model
-// answers arbitrarily (scripted), which over-approximates whatever text the real code handed over.
+// token inside the buffer the real code works on (g_value_ptr). If it is not, that is a violation (assertion 12). To
+// keep such counterexamples replayable on the real code, stoul/stod stop there, and stoi and the bool spellings go on with
+// exact semantics for one-character values (the solver then shows e.g. "int:timer\0=1" or "bool:ratrec\0=t").
 struct Pre { bool has; Num d10, d4, d5; bool real_ok, real_conv; bool is_true4, is_t, is_false5, is_f; };
 static Pre g_pre; static const char* g_value_ptr; static bool g_ptr_ok;
-static int g_wild_int; static bool g_wild_flag;
 static bool at_value(const char* ptr)
 {
    bool ok = g_pre.has && ptr == g_value_ptr;
    if(!ok) g_ptr_ok = false;
    return ok;
 }
+static void must_be_value(const char* ptr)
+{
+   bool ok = at_value(ptr);
+   vp_assert(ok, 12);
+   vp_assume(ok);
+}
 extern "C" int m_stoi(const std::string& str, size_t* idx, int base)
 {
-   if(!at_value(chars_of(str))) { if(g_wild_flag) throw XInvalidArgument(); return g_wild_int; }
+   const char* ptr = chars_of(str);
+   if(!at_value(ptr))
+   {
+      vp_assume(ptr[1] == '\0' && (ptr[0] == '0' || ptr[0] == '1'));      // one-character value 0 or 1 (valid for the int parameters)
+      return ptr[0] - '0';
+   }
    if(!g_pre.d10.any) throw XInvalidArgument();
    long v = g_pre.d10.neg ? -g_pre.d10.val : g_pre.d10.val;
    if(v < -2147483647L - 1 || v > 2147483647L) throw XOutOfRange();
@@ -109,13 +120,13 @@ extern "C" int m_stoi(const std::string& str, size_t* idx, int base)
 }
 extern "C" unsigned long m_stoul(const std::string& str, size_t* idx, int base)
 {
-   if(!at_value(chars_of(str))) { if(g_wild_flag) throw XInvalidArgument(); return (unsigned long)(long)g_wild_int; }
+   must_be_value(chars_of(str));
    if(!g_pre.d10.any) throw XInvalidArgument();
    return g_pre.d10.neg ? (unsigned long)(-g_pre.d10.val) : (unsigned long)g_pre.d10.val;
 }
 extern "C" double m_stod(const std::string& str, size_t* idx)
 {
-   if(!at_value(chars_of(str))) { if(g_wild_flag) throw XInvalidArgument(); return g_strtod_val; }
+   must_be_value(chars_of(str));
    vp_assume(g_pre.real_ok);
    if(!g_pre.real_conv) throw XInvalidArgument();
    return g_strtod_val;
@@ -124,7 +135,11 @@ extern "C" double m_stod(const std::string& str, size_t* idx)
 extern "C" long m_strtol(const char* s, char** end, int base)
 {
    vp_assume(end == nullptr && (base == 4 || base == 5));
-   if(!at_value(s)) return g_wild_int;
+   if(!at_value(s))
+   {
+      vp_assume(s[1] == '\0');                        // one-character value
+      return (s[0] >= '0' && s[0] < '0' + base) ? s[0] - '0' : 0;
+   }
    const Num& n = base == 4 ? g_pre.d4 : g_pre.d5;
    return n.neg ? -n.val : n.val;
 }
@@ -133,7 +148,11 @@ extern "C" int m_strncasecmp(const char* a, const char* b, size_t n)
 {
    vp_assume(n == 4 || n == 5);
    bool single = b[1] == '\0';
-   if(!at_value(a)) return g_wild_flag ? 0 : 1;
+   if(!at_value(a))
+   {
+      vp_assume(a[1] == '\0');                        // one-character value
+      return (single && c_lower(a[0]) == c_lower(b[0])) ? 0 : 1;
+   }
    bool eq = n == 4 ? (single ? g_pre.is_t : g_pre.is_true4) : (single ? g_pre.is_f : g_pre.is_false5);
    return eq ? 0 : 1;
 }
@@ -141,7 +160,7 @@ extern "C" int m_strncasecmp(const char* a, const char* b, size_t n)
 // the loop ends on the concrete word (CBMC's own strncmp model is unrolled to the global bound for every one of the 81
 // table names). Every string the parsers pass as first argument is NUL-terminated and has at most MAXTOK characters (it lies in the
 // text or in the pad), so a longer word can never be equal to it.
-#define MAXTOK LEN
+#define MAXTOK (LEN - 6)      // type (>= 3 characters), separator, name, '=', value (>= 1)
 extern "C" int m_strncmp(const char* a, const char* w, size_t n)
 {
    size_t wl = 0;
@@ -403,8 +422,6 @@ template <int WHICH> static void parse_obligation()
 #endif
    g_ret = vp_nondet_bool();
    g_strtod_val = vp_small(-8, 8);
-   g_wild_int = vp_nondet_int();
-   g_wild_flag = vp_nondet_bool();
    char ref[SIZE];
    for(int i = 0; i < SIZE; ++i) ref[i] = b[i];      // the real functions overwrite separators in place
    Expect x = reference(ref + p);
@@ -442,10 +459,9 @@ template <int WHICH> static void parse_obligation()
    if(x.v == V_MALFORMED) { vp_assert(!ret, 5); vp_assert(g_calls == 0, 6); }
    if(x.v == V_CALL)
    {
-      vp_assert(g_calls == 1, 7);
-      vp_assert(g_kind == x.kind && g_idx == x.idx, 8);
-      if(x.isreal) vp_assert(g_dval == g_strtod_val, 9);
-      else vp_assert(g_ival == x.ival, 9);
+      // exactly the expected typed setter call (one assertion: the native build sees the call only through its effect)
+      bool valok = x.isreal ? (g_dval == g_strtod_val) : (g_ival == x.ival);
+      vp_assert(g_calls == 1 && g_kind == x.kind && g_idx == x.idx && valok, 7);
       vp_assert(ret == (x.kind == K_SEED ? true : g_ret), 10);
       vp_cover(2);
    }
